@@ -53,6 +53,8 @@ def pruned_samplespace(d, sample_space=None):
         sample_space = ScalarSampleSpace(outcomes)
     pd = d.__class__(outcomes, pmf,
                      sample_space=sample_space, base=d.get_base())
+    if d.is_joint():
+        pd.set_rv_names(d.get_rv_names())
     return pd
 
 
@@ -113,4 +115,6 @@ def expanded_samplespace(d, alphabets=None, union=True):
 
     ed = d.__class__(d.outcomes, d.pmf,
                      sample_space=sample_space, base=d.get_base())
+    if joint:
+        ed.set_rv_names(d.get_rv_names())
     return ed
